@@ -874,8 +874,11 @@ class BioBasket(collections.UserList):
             self.data[i] = value
         elif len(i) == 2:
             i, j = i
-            for seq in self[i]:
-                seq[j] = value
+            if isinstance(i, int):
+                self.data[i][j] = value
+            else:
+                for seq in self[i]:
+                    seq[j] = value
         else:
             raise TypeError('Index not supported')
 
